@@ -19,7 +19,7 @@ CHECKS = {
         design="5/C04"),
     "C05": dict(
         technique="exhaustive enumeration of short byte strings over a class-representative alphabet x all buffer sizes/capacities, plus proptest-generated streams; crash/hang/suffix oracles",
-        text="Every byte string up to the length bound over an 18-symbol alphabet is run through run (65 capacities) and process (71 buffer sizes x 4 read sizes); longer streams are generated. Oracles: no panic, run returns a suffix, process ends only with the transport's EOF error having consumed everything, never reads into an empty slice, oversized responses are reported. Hangs are caught by a watchdog and confirmed by re-running the saved input in a fresh process.",
+        text="Every byte string up to the length bound over an 19-symbol alphabet is run through run (65 capacities) and process (71 buffer sizes x 4 read sizes); longer streams are generated. Oracles: no panic, run returns a suffix, process ends only with the transport's EOF error having consumed everything, never reads into an empty slice, oversized responses are reported. Hangs are caught by a watchdog and confirmed by re-running the saved input in a fresh process.",
         note="Absence of panics is only shown for what was explored; handlers of the fixture do not panic; harness built with overflow checks and debug assertions.",
         design="5/C05"),
     "C07": dict(
